@@ -161,11 +161,25 @@ fn expected(op: Op) -> Obs {
 
 static TICKET: AtomicUsize = AtomicUsize::new(0);
 
+/// loom reports "deadlock; threads = [..]" when the model closure returns while a thread is still
+/// blocked. If that happens after every thread of the harness was joined (ALL_JOINED is set at the
+/// end of the model closure), every *call* has returned and only a thread the library itself started
+/// is left: a helper thread that outlives the calls is not a deadlock in the sense of the property.
+/// Such a body cannot be explored with loom (which demands that all threads end); it is counted,
+/// not reported.
+static ALL_JOINED: std::sync::atomic::AtomicBool = std::sync::atomic::AtomicBool::new(false);
+
+fn only_library_threads_blocked(msg: &str) -> bool {
+    msg.starts_with("deadlock") && ALL_JOINED.load(Ordering::Relaxed)
+}
+
 struct HarnessResult {
     executions: usize,
     outcomes: usize,
     violation: Option<String>,
     capped: bool,
+    /// a thread started by the library outlives the calls: loom cannot explore this body
+    library_thread_left: bool,
 }
 
 /// Explores all schedules of one harness body: `scripts[t]` is run by thread t.
@@ -184,6 +198,7 @@ fn explore(scripts: &[Vec<Op>], bound: Option<usize>, max_branches: usize, budge
                 // (a spawned thread: loom's coroutines have small stacks by default, deeply nested
                 // patterns recurse)
                 let (o, sc) = (o.clone(), sc.clone());
+                ALL_JOINED.store(false, Ordering::Relaxed);
                 thread::Builder::new()
                     .stack_size(1 << 23)
                     .spawn(move || {
@@ -192,11 +207,15 @@ fn explore(scripts: &[Vec<Op>], bound: Option<usize>, max_branches: usize, budge
                     .unwrap()
                     .join()
                     .unwrap();
+                ALL_JOINED.store(true, Ordering::Relaxed);
             })
         }));
         if let Err(e) = r {
             let msg = if let Some(s) = e.downcast_ref::<&str>() { s.to_string() } else if let Some(s) = e.downcast_ref::<String>() { s.clone() } else { "?".into() };
-            return HarnessResult { executions: 1, outcomes: 1, violation: Some(format!("the sequential (single-threaded) run of the operations panicked: {msg}")), capped: false };
+            if only_library_threads_blocked(&msg) {
+                return HarnessResult { executions: 1, outcomes: 1, violation: None, capped: false, library_thread_left: true };
+            }
+            return HarnessResult { executions: 1, outcomes: 1, violation: Some(format!("the sequential (single-threaded) run of the operations panicked: {msg}")), capped: false, library_thread_left: false };
         }
         let v = out.lock().unwrap().clone();
         v
@@ -235,6 +254,7 @@ fn explore(scripts: &[Vec<Op>], bound: Option<usize>, max_branches: usize, budge
         b.check(move || {
             e2.fetch_add(1, Ordering::Relaxed);
             TICKET.store(0, Ordering::Relaxed);
+            ALL_JOINED.store(false, Ordering::Relaxed);
             // the shared scanner comes from the cache as well (so that scans race with builds of the same entry)
             // a cache that already holds `prefill` other configurations (bounded caches, eviction)
             for k in 0..prefill {
@@ -278,20 +298,24 @@ fn explore(scripts: &[Vec<Op>], bound: Option<usize>, max_branches: usize, budge
                 k2.fetch_add(1, Ordering::Relaxed);
             }
             o2.lock().unwrap().insert(format!("{:?}", results.iter().map(|r| r.iter().map(|x| x.1).collect::<Vec<_>>()).collect::<Vec<_>>()));
+            ALL_JOINED.store(true, Ordering::Relaxed);
         });
     }));
     let mut violation = problem.lock().unwrap().clone();
     let mut capped = started.elapsed().as_secs_f64() >= budget_s;
+    let mut library_thread_left = false;
     if let Err(e) = r {
         let msg = if let Some(s) = e.downcast_ref::<&str>() { s.to_string() } else if let Some(s) = e.downcast_ref::<String>() { s.clone() } else { "panic".into() };
         if msg.contains("exceeded maximum number of branches") || msg.contains("Model exeeded maximum") {
             capped = true;
+        } else if only_library_threads_blocked(&msg) {
+            library_thread_left = true;
         } else if violation.is_none() {
             violation = Some(format!("loom reported: {msg}"));
         }
     }
     let n_outcomes = outcomes.lock().unwrap().len();
-    HarnessResult { executions: execs.load(Ordering::Relaxed), outcomes: n_outcomes, violation, capped }
+    HarnessResult { executions: execs.load(Ordering::Relaxed), outcomes: n_outcomes, violation, capped, library_thread_left }
 }
 
 fn sendsync_probe(viol: &mut ViolAcc) -> serde_json::Value {
@@ -411,6 +435,7 @@ fn main() {
     let mut samples = Samples::new(6);
     let mut multi_outcome_bodies = 0usize;
     let mut explored_bodies = 0usize;
+    let mut unexplorable = 0usize;
     for body in &bodies {
         // all schedules (no preemption bound); a body whose schedule space does not close within
         // the budget is explored again completely under preemption bound 2
@@ -418,7 +443,7 @@ fn main() {
         if r.capped && r.violation.is_none() {
             let r2 = explore(body, Some(2), 200_000, budget * 2.0, 0);
             bounded += 1;
-            r = HarnessResult { executions: r.executions + r2.executions, outcomes: r.outcomes.max(r2.outcomes), violation: r2.violation, capped: r2.capped };
+            r = HarnessResult { executions: r.executions + r2.executions, outcomes: r.outcomes.max(r2.outcomes), violation: r2.violation, capped: r2.capped, library_thread_left: r.library_thread_left || r2.library_thread_left };
         }
         explored_bodies += 1;
         if debug {
@@ -431,6 +456,9 @@ fn main() {
         }
         if r.capped {
             capped += 1;
+        }
+        if r.library_thread_left {
+            unexplorable += 1;
         }
         if let Some(v) = r.violation {
             viol.add("", || Violation { key: String::new(), summary: format!("threads {body:?}: {v}"), replay: json!({"threads": format!("{body:?}"), "shared_scanner": "built through the cache before the threads start", "inputs": [INPUT, INPUT2], "problem": v, "how": "loom::model over scnr built with feature verif_loom; every thread runs its ops in order"}) });
@@ -540,7 +568,8 @@ fn main() {
     cov.insert("evaluations".into(), json!(total_exec));
     cov.insert("distinct_nontrivial".into(), json!(total_outcomes));
     cov.insert("rule".into(), json!("one evaluation = one complete schedule (loom execution) of a harness body running the real build()/find_iter/peek_n code; loom's DPOR enumerates all schedules of a body (preemption bound: none); distinct_nontrivial = number of distinct completion orders of the threads' operations observed, summed over bodies (more than one per body means the threads really interleaved)"));
-    cov.insert("exhaustive".into(), json!(capped == 0 && unexplored == 0 && bounded == 0));
+    cov.insert("exhaustive".into(), json!(capped == 0 && unexplored == 0 && bounded == 0 && unexplorable == 0));
+    cov.insert("bodies_loom_cannot_explore_because_a_library_thread_outlives_the_calls".into(), json!(unexplorable));
     cov.insert("bodies_explored_under_preemption_bound_2_because_unbounded_did_not_close".into(), json!(bounded));
     cov.insert("bodies_not_explored_because_of_the_wall_clock_cap".into(), json!(unexplored));
     cov.insert("harness_bodies".into(), json!(bodies.len()));
